@@ -658,7 +658,7 @@ UnitsMap defineUnitsMap(const UnitsPtr &units)
     // Checking for exponents of zero in the map, which can be removed.
     auto it = unitsMap.begin();
     while (it != unitsMap.end()) {
-        if (it->second == 0.0) {
+        if (areNearlyEqual(it->second, 0.0)) {
             it = unitsMap.erase(it);
         } else if (it->first == "dimensionless") {
             it = unitsMap.erase(it);
